@@ -466,6 +466,10 @@ SessionKeys::SessionKeys(const RSNHandshake& hs, const pmk_type& pmk)
 }
 
 SNAP* SessionKeys::ccmp_decrypt_unicast(const Dot11Data& dot11, RawPDU& raw) const {
+    // at least 16 bytes for the CCMP header + MIC and something to decrypt
+    if (raw.payload_size() <= 16) {
+        return 0;
+    }
     RawPDU::payload_type& pload = raw.payload();
     uint8_t MIC[16] = {0};
     uint8_t PN[6] = {
